@@ -23,6 +23,12 @@ prop("C05", True,
      note="Trusted: go/ssa, errgroup.Wait joins all Go callbacks, sync.Mutex. Not decided: identical result under every interleaving (no happens-before model), source order of the import list produced by the pre-parse, the observed depth-limit/claim-order interaction described in DESIGN §3 C05.",
      design="DESIGN.md §3 C05")
 
+prop("C01", True,
+     technique="whole-program VTA call-graph reachability of panic/exit sites with recover barriers, SSA dominance for the parser guard structure, SCC classification of recursion",
+     text="Decides structural necessary conditions of 'compilation is total': (1) every call of the generated parser entry runs under a defer/recover barrier that sets the named error result, and the parse tree is returned only on the no-syntax-error outcome of the registered error listener (whose callback sets the flag first); (2) every explicit panic, must-helper (Must*/Assert/PanicOn*) call, non-constant regexp.MustCompile and process-exit call in repository code reachable from Parser.Parse/ParseString/ParseFromFs in the whole-program call graph is protected by a recover barrier on every call path in its own goroutine (process exits can never be protected); sites in the default arm of a type switch that enumerates all implementers of a oneof interface are discharged mechanically; (3) every recursive cycle of repository functions on the compile path is structural (descends the parse tree / protobuf tree by accessor steps), a verified counter recursion, or a verified visited-guard; (4) main2 returns 0 only when err == nil and every Exit code built in pkg/parse is a non-zero constant. A change that removes a barrier, adds an unprotected crash site, starts a walk on an unguarded goroutine, drops the flatten/collector guard or maps an error to status 0 is reported with the call chain.",
+     note="Trusted: go/ssa, VTA call graph (over-approximate; artefact paths are excepted one by one with reasons in tables/exceptions.json), recover semantics. NOT decided: implicit runtime panics inside a protected region are irrelevant, but implicit panics (index, nil map, type assertion) outside every barrier, termination of the ANTLR interpreter and of the hand-written lexer loop, and stack depth on deeply nested input are out of reach. Two baseline rows (logrus.Fatal in the linter) are reported as unconfirmed.",
+     design="DESIGN.md §3 C01")
+
 for i in range(1, 21):
     pid = "C%02d" % i
     if pid not in P:
